@@ -186,6 +186,11 @@ def gen_roles(rng):
 def run_case(case, ctx):
     rng = harness.rng_for(ctx.seed, ID, case["i"])
     roles = gen_roles(rng)
+    if rng.random() < 0.25 and not any(r.get("compress") for r in roles):
+        # Memory(mmap_mode='r'): a freshly computed result is read back from the store before it is returned
+        for r in roles:
+            r["mmap_mode"] = "r"
+        ctx.count("schedules_with_mmap_mode")
     warm = (rng.random() < 0.5 and not any(r["kind"] == "observer" for r in roles)) or any(r.get("refill") for r in roles)
     if any(r.get("zipper") for r in roles):
         warm = False
@@ -221,7 +226,7 @@ def run_case(case, ctx):
             ctx.maxi("max_refills_in_one_schedule", pstate.get("refills", 0))
         ctx.evaluated()
         ctx.count("schedules")
-        desc = dict(roles=[dict(kind=r["kind"], ops=r["ops"], threads=r["threads"], validation=r.get("validation"), version=r.get("version", "v1")) for r in roles], warm=warm, strategy=strategy,
+        desc = dict(roles=[dict(kind=r["kind"], ops=r["ops"], threads=r["threads"], validation=r.get("validation"), version=r.get("version", "v1"), mmap_mode=r.get("mmap_mode")) for r in roles], warm=warm, strategy=strategy,
                     compress=roles[0]["compress"], schedule_len=len(res["trace"]))
         if res["timed_out"]:
             ctx.inconclusive("schedule-watchdog", dict(desc, rcs=res["rcs"]))
